@@ -101,7 +101,16 @@ type Lemma struct {
 	Induct   string // name of variable to do induction on (optional)
 }
 
+type SharedClause struct {
+	Kind  string // "atomic"
+	Type  string
+	Field string
+	Pkg   string
+	Props []string
+}
+
 type Specs struct {
+	Shared    []SharedClause
 	Contracts map[string]*Contract // key: pkgpath + "." + funcKey   (externs: full name)
 	SpecFuns  map[string]*SpecFun  // by name (global namespace)
 	Ghosts    map[string]*GhostVar
@@ -117,7 +126,7 @@ var clauseKeywords = map[string]bool{
 	"func": true, "extern": true, "spec": true, "ghost": true, "lemma": true, "axiom": true,
 	"requires": true, "ensures": true, "assigns": true, "loop": true, "props": true,
 	"trusted": true, "pure": true, "maypanic": true, "replay": true, "strings": true,
-	"fresh": true, "nohavoc": true, "decreases": true, "induct": true, "calls": true, "alias": true, "conforms": true, "sets": true, "at": true,
+	"fresh": true, "nohavoc": true, "decreases": true, "induct": true, "calls": true, "alias": true, "conforms": true, "sets": true, "at": true, "shared": true,
 }
 
 type rawLine struct {
@@ -560,6 +569,20 @@ func (sp *Specs) load(path string, prefixed bool, pkgPath string) error {
 			if cur != nil {
 				cur.Conforms = rest
 			}
+		case "shared":
+			// shared atomic Type.field props Cxx ...
+			if len(fs) < 3 || fs[1] != "atomic" || !strings.Contains(fs[2], ".") {
+				return fail(fmt.Errorf("expected: shared atomic Type.field [props ...]"))
+			}
+			tf := strings.SplitN(fs[2], ".", 2)
+			sc := SharedClause{Kind: "atomic", Type: tf[0], Field: tf[1], Pkg: pkgPath}
+			for i := 3; i < len(fs); i++ {
+				if fs[i] != "props" {
+					sc.Props = append(sc.Props, fs[i])
+				}
+			}
+			sp.Shared = append(sp.Shared, sc)
+			cur, curFun, curLemma = nil, nil, nil
 		case "at":
 			// at "source text" assert EXPR
 			if cur == nil {
